@@ -55,7 +55,7 @@ PROPS = {
     },
     "C09": {
         "lean": ["Shentu.Props.C09"],
-        "engines": [chain("staking", 128, 1280, ops=150, tops=250), chain("shield", 128, 1280, ops=90, tops=160), EXPORT],
+        "engines": [chain("staking", 128, 1280, ops=150, tops=250), chain("shield", 128, 1280, ops=90, tops=160), chain("payout", 48, 480, ops=120, tops=200), EXPORT],
         "trusted": ["modelled, not verified: the Cosmos SDK staking keeper (power index, unbonding queues, slashing), baseapp, Tendermint; the model is the specification of what consensus must see, compared on every block with the updates the real application returns from EndBlock",
                     "the consensus view is accumulated by the harness from the EndBlock responses, starting from the bonded validators of genesis"],
         "assumptions": ["consensus public keys are unique among validators (refused otherwise by the SDK)", "power reduction 10^6 (the default)", "a tie in power exactly at the last seat is not decided by the monitor (counted as sit.c09.tie_at_the_cut)",
